@@ -1,7 +1,8 @@
 /-
 C01 (bytes) — `readFile (writeFile F) = nfFile F`: the container lemma (C03), the per-table
 lemmas (C12, C14, C11) and the record-level theorem `read_write` of this property, assembled.
-Stage 2: TrueType outlines with cmap table and glyph names; no layout tables.
+Stage 2: TrueType outlines with cmap table and glyph names.  Stage 4': GDEF / GSUB / GPOS carried
+as encoded bytes, their decoders abstract (`LayoutDec`), C08's round trip as a guard.
 -/
 import SfntV.Proofs.FontFileHeader
 import SfntV.Proofs.FontFileTables
@@ -24,7 +25,7 @@ def os2InfoOf (F : FileFont) : Metrics.Os2 :=
 
 /-- The domain of the byte-level round trip: the conjunction of the guards of the codec theorems
 that are composed (each field names its source), plus the shape restrictions of stage 1. -/
-structure InDomainFile (ef : EnvF) (F : FileFont) : Prop where
+structure InDomainFile (ld : LayoutDec) (ef : EnvF) (F : FileFont) : Prop where
   /-- C11: at least one glyph, 16-bit header fields, well-formed glyph data, glyf table < 4 GiB -/
   glyphs : SfntV.Props.C11.WFGlyphs F.glyphs
   /-- maxp: numGlyphs is a uint16 -/
@@ -58,6 +59,11 @@ structure InDomainFile (ef : EnvF) (F : FileFont) : Prop where
   /-- C14 post: one glyph name per glyph, each at most 255 bytes -/
   names : NamesOK F.glyphNames
   namesLen : ∀ ns, F.glyphNames = some ns → ns.length = F.glyphs.length
+  /-- C08 (guard, not composed here): the layout tables `Write` is handed are non-empty byte strings
+  which the layout decoders accept, returning the table the bytes stand for -/
+  gdef : ∀ b, F.gdef = some b → b ≠ [] ∧ ld.gdef b = .ok (tokenOfBytes b)
+  gsub : ∀ b, F.gsub = some b → b ≠ [] ∧ ld.gsub b = .ok (tokenOfBytes b)
+  gpos : ∀ b, F.gpos = some b → b ≠ [] ∧ ld.gpos b = .ok (tokenOfBytes b)
   /-- head.fontRevision is a uint32 -/
   version : F.scalars.version < 4294967296
   /-- side tables: at most the four TrueType program tables, each once -/
@@ -72,18 +78,24 @@ structure InDomainFile (ef : EnvF) (F : FileFont) : Prop where
 
 /-! ### the container -/
 
-/-- the table map of `writeTables`, as a function of the table bodies -/
-def tableEntries (side : List (Bytes × Bytes)) (hhea hmtx os2 name post glyf loca maxp head : Bytes) :
-    List Header.Entry :=
-  [⟨tag "hhea", some hhea⟩, ⟨tag "hmtx", some hmtx⟩, ⟨tag "OS/2", some os2⟩, ⟨tag "name", some name⟩,
-   ⟨tag "post", some post⟩, ⟨tag "glyf", some glyf⟩, ⟨tag "loca", some loca⟩] ++
+
+/-- the table map of `writeTables`, as a function of the table bodies (`cm`: the optional cmap) -/
+def tableEntries (side : List (Bytes × Bytes)) (hhea hmtx : Bytes) (cm : Option Bytes)
+    (os2 name post glyf loca maxp head : Bytes) : List Header.Entry :=
+  [⟨tag "hhea", some hhea⟩, ⟨tag "hmtx", some hmtx⟩, ⟨tag "cmap", cm⟩, ⟨tag "OS/2", some os2⟩,
+   ⟨tag "name", some name⟩, ⟨tag "post", some post⟩, ⟨tag "glyf", some glyf⟩, ⟨tag "loca", some loca⟩] ++
   side.map (fun t => ⟨t.1, some t.2⟩) ++ [⟨tag "maxp", some maxp⟩, ⟨tag "head", some head⟩]
 
+/-- the cmap table, if it is written -/
+def cmapBody : Option Bytes → List (Bytes × Bytes)
+  | some b => [(tag "cmap", b)]
+  | none => []
+
 /-- the tables that are written -/
-def tableBodies (side : List (Bytes × Bytes)) (hhea hmtx os2 name post glyf loca maxp head : Bytes) :
-    List (Bytes × Bytes) :=
-  [(tag "hhea", hhea), (tag "hmtx", hmtx), (tag "OS/2", os2), (tag "name", name),
-   (tag "post", post), (tag "glyf", glyf), (tag "loca", loca)] ++
+def tableBodies (side : List (Bytes × Bytes)) (hhea hmtx : Bytes) (cm : Option Bytes)
+    (os2 name post glyf loca maxp head : Bytes) : List (Bytes × Bytes) :=
+  [(tag "hhea", hhea), (tag "hmtx", hmtx)] ++ cmapBody cm ++
+  [(tag "OS/2", os2), (tag "name", name), (tag "post", post), (tag "glyf", glyf), (tag "loca", loca)] ++
   side ++ [(tag "maxp", maxp), (tag "head", head)]
 
 theorem sideTag_length : ∀ n ∈ sideTags, n.length = 4 := by decide
@@ -91,7 +103,8 @@ theorem sideTag_printable : ∀ n ∈ sideTags, ∀ b ∈ n, (0x20 : UInt8) ≤ 
 theorem sideTag_ne_head : ∀ n ∈ sideTags, (n == Header.headTag) = false := by decide
 
 def fixedTags : List Bytes :=
-  [tag "hhea", tag "hmtx", tag "OS/2", tag "name", tag "post", tag "glyf", tag "loca", tag "maxp", tag "head"]
+  [tag "hhea", tag "hmtx", tag "cmap", tag "OS/2", tag "name", tag "post", tag "glyf", tag "loca", tag "maxp",
+   tag "head"]
 
 theorem fixed_not_side : ∀ a ∈ fixedTags, a ∉ sideTags := by decide
 theorem fixed_printable : ∀ n ∈ fixedTags, ∀ b ∈ n, (0x20 : UInt8) ≤ b ∧ b ≤ 0x7e := by decide
@@ -107,20 +120,21 @@ theorem named_side (side : List (Bytes × Bytes)) (hs : ∀ t ∈ side, t.1 ∈ 
     simp only [List.map_cons, List.filterMap_cons, h4, if_true, this]
 
 theorem named_tableEntries (side : List (Bytes × Bytes)) (hs : ∀ t ∈ side, t.1 ∈ sideTags)
-    (hhea hmtx os2 name post glyf loca maxp head : Bytes) :
-    Header.named (tableEntries side hhea hmtx os2 name post glyf loca maxp head) =
-      tableBodies side hhea hmtx os2 name post glyf loca maxp head := by
+    (hhea hmtx : Bytes) (cm : Option Bytes) (os2 name post glyf loca maxp head : Bytes) :
+    Header.named (tableEntries side hhea hmtx cm os2 name post glyf loca maxp head) =
+      tableBodies side hhea hmtx cm os2 name post glyf loca maxp head := by
   have h := named_side side hs
   unfold Header.named at h ⊢
   unfold tableEntries tableBodies
   rw [List.filterMap_append, List.filterMap_append, h]
-  rfl
+  cases cm <;> rfl
 
 theorem keys_tableEntries (side : List (Bytes × Bytes)) (hs : ∀ t ∈ side, t.1 ∈ sideTags)
-    (hnd : (side.map (·.1)).Nodup) (hhea hmtx os2 name post glyf loca maxp head : Bytes) :
-    ((tableEntries side hhea hmtx os2 name post glyf loca maxp head).map (·.name)).Nodup := by
-  have hmap : (tableEntries side hhea hmtx os2 name post glyf loca maxp head).map (·.name) =
-      [tag "hhea", tag "hmtx", tag "OS/2", tag "name", tag "post", tag "glyf", tag "loca"] ++
+    (hnd : (side.map (·.1)).Nodup) (hhea hmtx : Bytes) (cm : Option Bytes)
+    (os2 name post glyf loca maxp head : Bytes) :
+    ((tableEntries side hhea hmtx cm os2 name post glyf loca maxp head).map (·.name)).Nodup := by
+  have hmap : (tableEntries side hhea hmtx cm os2 name post glyf loca maxp head).map (·.name) =
+      [tag "hhea", tag "hmtx", tag "cmap", tag "OS/2", tag "name", tag "post", tag "glyf", tag "loca"] ++
         side.map (·.1) ++ [tag "maxp", tag "head"] := by
     unfold tableEntries
     simp only [List.map_append, List.map_map, List.map_cons, List.map_nil]
@@ -134,37 +148,89 @@ theorem keys_tableEntries (side : List (Bytes × Bytes)) (hs : ∀ t ∈ side, t
   refine ⟨⟨by decide, hnd, ?_⟩, by decide, ?_⟩
   · intro a ha b hb e
     subst e
-    exact (by decide : ∀ a ∈ [tag "hhea", tag "hmtx", tag "OS/2", tag "name", tag "post", tag "glyf", tag "loca"],
-      a ∉ sideTags) a ha (hside a hb)
+    exact (by decide : ∀ a ∈ [tag "hhea", tag "hmtx", tag "cmap", tag "OS/2", tag "name", tag "post", tag "glyf",
+      tag "loca"], a ∉ sideTags) a ha (hside a hb)
   · intro a ha b hb e
     subst e
     rcases List.mem_append.mp ha with ha | ha
-    · exact (by decide : ∀ a ∈ [tag "hhea", tag "hmtx", tag "OS/2", tag "name", tag "post", tag "glyf", tag "loca"],
-        a ∉ [tag "maxp", tag "head"]) a ha hb
+    · exact (by decide : ∀ a ∈ [tag "hhea", tag "hmtx", tag "cmap", tag "OS/2", tag "name", tag "post", tag "glyf",
+        tag "loca"], a ∉ [tag "maxp", tag "head"]) a ha hb
     · exact (by decide : ∀ a ∈ [tag "maxp", tag "head"], a ∉ sideTags) a hb (hside a ha)
 
-theorem mem_tableBodies (side : List (Bytes × Bytes)) (hhea hmtx os2 name post glyf loca maxp head : Bytes)
-    (t : Bytes × Bytes) (ht : t ∈ tableBodies side hhea hmtx os2 name post glyf loca maxp head) :
+theorem mem_tableBodies (side : List (Bytes × Bytes)) (hhea hmtx : Bytes) (cm : Option Bytes)
+    (os2 name post glyf loca maxp head : Bytes)
+    (t : Bytes × Bytes) (ht : t ∈ tableBodies side hhea hmtx cm os2 name post glyf loca maxp head) :
     t.1 ∈ fixedTags ∨ t ∈ side := by
   unfold tableBodies at ht
-  simp only [List.mem_append, List.mem_cons, List.not_mem_nil, or_false] at ht
-  rcases ht with (((h | h | h | h | h | h | h) | h) | (h | h))
+  cases cm with
+  | none =>
+    simp only [cmapBody, List.append_nil, List.mem_append, List.mem_cons, List.not_mem_nil, or_false] at ht
+    rcases ht with ((((h | h) | (h | h | h | h | h)) | h) | (h | h))
+    all_goals first
+      | exact Or.inr h
+      | (subst h; exact Or.inl (by simp [fixedTags]))
+  | some b =>
+    simp only [cmapBody, List.mem_append, List.mem_cons, List.not_mem_nil, or_false] at ht
+    rcases ht with (((((h | h) | h) | (h | h | h | h | h)) | h) | (h | h))
+    all_goals first
+      | exact Or.inr h
+      | (subst h; exact Or.inl (by simp [fixedTags]))
+
+/-- the head table is the only one under the head tag -/
+theorem head_of_tableBodies (side : List (Bytes × Bytes)) (hs : ∀ t ∈ side, t.1 ∈ sideTags)
+    (hhea hmtx : Bytes) (cm : Option Bytes) (os2 name post glyf loca maxp head : Bytes) (d : Bytes)
+    (hd : (Header.headTag, d) ∈ tableBodies side hhea hmtx cm os2 name post glyf loca maxp head) : d = head := by
+  have hside : (Header.headTag, d) ∉ side := by
+    intro h
+    have := sideTag_ne_head _ (hs _ h)
+    simp at this
+  unfold tableBodies at hd
+  cases cm with
+  | none =>
+    simp only [cmapBody, List.append_nil, List.mem_append, List.mem_cons, List.not_mem_nil, or_false,
+      Prod.mk.injEq] at hd
+    rcases hd with ((((h | h) | (h | h | h | h | h)) | h) | (h | h))
+    all_goals first
+      | (exact absurd h.1 (by decide))
+      | (exact h.2)
+      | (exact absurd h hside)
+  | some b =>
+    simp only [cmapBody, List.mem_append, List.mem_cons, List.not_mem_nil, or_false, Prod.mk.injEq] at hd
+    rcases hd with (((((h | h) | h) | (h | h | h | h | h)) | h) | (h | h))
+    all_goals first
+      | (exact absurd h.1 (by decide))
+      | (exact h.2)
+      | (exact absurd h hside)
+
+/-- without a cmap entry no written table has the cmap tag -/
+theorem no_cmap_tableBodies (side : List (Bytes × Bytes)) (hs : ∀ t ∈ side, t.1 ∈ sideTags)
+    (hhea hmtx os2 name post glyf loca maxp head : Bytes) (t : Bytes × Bytes)
+    (ht : t ∈ tableBodies side hhea hmtx none os2 name post glyf loca maxp head) : t.1 ≠ tag "cmap" := by
+  unfold tableBodies at ht
+  simp only [cmapBody, List.append_nil, List.mem_append, List.mem_cons, List.not_mem_nil, or_false] at ht
+  rcases ht with ((((h | h) | (h | h | h | h | h)) | h) | (h | h))
   all_goals first
-    | exact Or.inr h
-    | (subst h; exact Or.inl (by simp [fixedTags]))
+    | (subst h; dsimp only; decide)
+    | (intro e
+       have := hs t h
+       rw [e] at this
+       exact absurd this (by decide))
 
 /-- `header.Write` accepts the table map, and `header.Read` + `ReadTableBytes` on its output return
-every table body (head with the checksum adjustment patched in) and no other side table -/
+every table body (head with the checksum adjustment patched in; cmap exactly when it was given) and
+no other side table -/
 theorem container_entries (side : List (Bytes × Bytes)) (hs : ∀ t ∈ side, t.1 ∈ sideTags)
     (hnd : (side.map (·.1)).Nodup) (hc : side.length ≤ 4)
-    (hhea hmtx os2 name post glyf loca maxp head : Bytes) (hhead : 12 ≤ head.length)
-    (hsize : Header.fileSize (Header.named (tableEntries side hhea hmtx os2 name post glyf loca maxp head))
+    (hhea hmtx : Bytes) (cm : Option Bytes) (os2 name post glyf loca maxp head : Bytes)
+    (hhead : 12 ≤ head.length)
+    (hsize : Header.fileSize (Header.named (tableEntries side hhea hmtx cm os2 name post glyf loca maxp head))
       < 4294967296) :
     ∃ w recs adj,
-      Header.write 0x00010000 (tableEntries side hhea hmtx os2 name post glyf loca maxp head) = .ok w ∧
+      Header.write 0x00010000 (tableEntries side hhea hmtx cm os2 name post glyf loca maxp head) = .ok w ∧
       Header.read 280 w.bytes = .ok (0x00010000, recs) ∧
       tableOf w.bytes recs (tag "hhea") = some hhea ∧
       tableOf w.bytes recs (tag "hmtx") = some hmtx ∧
+      tableOf w.bytes recs (tag "cmap") = cm ∧
       tableOf w.bytes recs (tag "OS/2") = some os2 ∧
       tableOf w.bytes recs (tag "name") = some name ∧
       tableOf w.bytes recs (tag "post") = some post ∧
@@ -174,46 +240,39 @@ theorem container_entries (side : List (Bytes × Bytes)) (hs : ∀ t ∈ side, t
       tableOf w.bytes recs (tag "head") = some (Header.patchAdj head adj) ∧
       (∀ t ∈ side, tableOf w.bytes recs t.1 = some t.2) ∧
       (∀ n ∈ sideTags, (∀ t ∈ side, t.1 ≠ n) → tableOf w.bytes recs n = none) := by
-  have hnamed := named_tableEntries side hs hhea hmtx os2 name post glyf loca maxp head
-  have hkeys := keys_tableEntries side hs hnd hhea hmtx os2 name post glyf loca maxp head
-  generalize hts : tableEntries side hhea hmtx os2 name post glyf loca maxp head = ts at *
-  have hlen : (Header.named ts).length = side.length + 9 := by
-    rw [hnamed]; simp [tableBodies]
+  have hnamed := named_tableEntries side hs hhea hmtx cm os2 name post glyf loca maxp head
+  have hkeys := keys_tableEntries side hs hnd hhea hmtx cm os2 name post glyf loca maxp head
+  generalize hts : tableEntries side hhea hmtx cm os2 name post glyf loca maxp head = ts at *
+  have hlen : (Header.named ts).length ≤ side.length + 10 := by
+    rw [hnamed]; cases cm <;> simp [tableBodies, cmapBody]
   have hdom : SfntV.Props.C03.Dom ts := ⟨hkeys, hsize, by omega⟩
   have hpr : ∀ t ∈ Header.named ts, ∀ b ∈ t.1, (0x20 : UInt8) ≤ b ∧ b ≤ 0x7e := by
     intro t ht
     rw [hnamed] at ht
-    rcases mem_tableBodies _ _ _ _ _ _ _ _ _ _ t ht with h | h
+    rcases mem_tableBodies _ _ _ _ _ _ _ _ _ _ _ t ht with h | h
     · exact fixed_printable t.1 h
     · exact sideTag_printable t.1 (hs t h)
   obtain ⟨w, hw⟩ := (SfntV.Props.C03.C03_ok_iff 0x00010000 ts hkeys).mpr ⟨by
       rw [hnamed]; simp [tableBodies], by
       intro d hd
       rw [hnamed] at hd
-      rcases mem_tableBodies _ _ _ _ _ _ _ _ _ _ _ hd with h | h
-      · unfold tableBodies at hd
-        simp only [List.mem_append, List.mem_cons, List.not_mem_nil, or_false, Prod.mk.injEq] at hd
-        rcases hd with (((h | h | h | h | h | h | h) | h) | (h | h))
-        all_goals first
-          | (exact absurd h.1 (by decide))
-          | (obtain ⟨_, rfl⟩ := h; exact hhead)
-          | skip
-        have := sideTag_ne_head _ (hs _ h)
-        simp at this
-      · have := sideTag_ne_head _ (hs _ h)
-        simp at this⟩
+      rw [head_of_tableBodies side hs _ _ _ _ _ _ _ _ _ _ d hd]
+      exact hhead⟩
   obtain ⟨recs, adj, hread, hlook, hnone⟩ :=
     container_lookup 0x00010000 (by decide) ts hdom (by omega) hpr w hw
   rw [hnamed] at hlook hnone
   have hfix : ∀ (n b : Bytes), (n == Header.headTag) = false →
-      (n, b) ∈ tableBodies side hhea hmtx os2 name post glyf loca maxp head →
+      (n, b) ∈ tableBodies side hhea hmtx cm os2 name post glyf loca maxp head →
       tableOf w.bytes recs n = some b := by
     intro n b hne hm
     have := hlook (n, b) hm
     simpa [storedBody, hne] using this
-  refine ⟨w, recs, adj, hw, hread, ?_, ?_, ?_, ?_, ?_, ?_, ?_, ?_, ?_, ?_, ?_⟩
+  refine ⟨w, recs, adj, hw, hread, ?_, ?_, ?_, ?_, ?_, ?_, ?_, ?_, ?_, ?_, ?_, ?_⟩
   · exact hfix _ _ (by decide) (by simp [tableBodies])
   · exact hfix _ _ (by decide) (by simp [tableBodies])
+  · cases cm with
+    | none => exact hnone _ (no_cmap_tableBodies side hs _ _ _ _ _ _ _ _ _)
+    | some b => exact hfix _ _ (by decide) (by simp [tableBodies, cmapBody])
   · exact hfix _ _ (by decide) (by simp [tableBodies])
   · exact hfix _ _ (by decide) (by simp [tableBodies])
   · exact hfix _ _ (by decide) (by simp [tableBodies])
@@ -228,7 +287,7 @@ theorem container_entries (side : List (Bytes × Bytes)) (hs : ∀ t ∈ side, t
   · intro n hn hno
     apply hnone
     intro t ht e
-    rcases mem_tableBodies _ _ _ _ _ _ _ _ _ _ t ht with h | h
+    rcases mem_tableBodies _ _ _ _ _ _ _ _ _ _ _ t ht with h | h
     · exact fixed_not_side _ h (e ▸ hn)
     · exact hno t h e
 
@@ -236,7 +295,8 @@ theorem container_entries (side : List (Bytes × Bytes)) (hs : ∀ t ∈ side, t
 
 /-- the abstract table set `readFile` builds from the decoded tables -/
 def tablesRead (c : Int → Int → Int) (H : Metrics.Head) (mx : Metrics.Maxp) (o2 : Metrics.Os2)
-    (d : Metrics.Decoded) (dec : List Names.Entry) (p : Nat × Metrics.PostHdr) (gs : Glyf.Glyphs) : Tables :=
+    (d : Metrics.Decoded) (dec : List Names.Entry) (cm : Option CmapTable.Table)
+    (p : PostRec × Option (List Names.GName)) (gs : Glyf.Glyphs) : Tables :=
   { scalerCFF := false,
     head := some (recOfHead H),
     hmtx := some { widths := d.widths, ascent := d.ascent, descent := d.descent,
@@ -244,9 +304,9 @@ def tablesRead (c : Int → Int → Int) (H : Metrics.Head) (mx : Metrics.Maxp) 
     maxp := some mx.numGlyphs.toNat,
     os2 := some (recOfOs2 o2),
     name := nameRecOf dec,
-    post := some (recOfPostHdr p.2),
+    post := some p.1,
     cff := none,
-    outline := outlineOf gs none,
+    outline := outlineOf gs none cm (namesFor gs.length p.2),
     gdef := none, gsub := none, gpos := none, kern := none }
 
 theorem readFile_of (c : Int → Int → Int) (f : Bytes) (recs : List (Bytes × Nat × Nat))
@@ -266,18 +326,22 @@ theorem readFile_of (c : Int → Int → Int) (f : Bytes) (recs : List (Bytes ×
     (o2 : Metrics.Os2) (dO : Metrics.decodeOs2 bos2 = .ok o2)
     (d : Metrics.Decoded) (dD : Metrics.decode bhhea (some bhmtx) = .ok d)
     (dec : List Names.Entry) (dN : Names.nameDecode (bytesToNats bname) = some dec)
-    (p : Nat × Metrics.PostHdr) (dP : Metrics.decodePost bpost = .ok p)
+    (cm : Option CmapTable.Table)
+    (dC : optDecode (tableOf f recs (tag "cmap")) CmapTable.decode = .ok cm)
+    (p : PostRec × Option (List Names.GName)) (dP : decodePostFull bpost = .ok p)
     (gs : Glyf.Glyphs) (dG : Glyf.decode H.locaFormat bloca bglyf = .ok gs)
-    (hT : readErr (tablesRead c H mx o2 d dec p gs) = none) :
+    (hT : readErr (tablesRead c H mx o2 d dec cm p gs) = none) :
     readFile c f = .ok
-      { font := merge (tablesRead c H mx o2 d dec p gs), glyphs := gs, maxpTtf := mx.ttf,
+      { font := merge (tablesRead c H mx o2 d dec cm p gs), glyphs := gs, maxpTtf := mx.ttf,
+        cmap := cm, glyphNames := namesFor gs.length p.2,
         sideTables := sideTags.filterMap fun t =>
           match tableOf f recs t with
           | some b => if b.isEmpty then none else some (t, b)
           | none => none } := by
   unfold tablesRead at hT ⊢
   unfold readFile
-  simp only [hread, thead, tmaxp, tos2, thhea, thmtx, tname, tpost, tloca, tglyf, optDecode,
+  simp only [hread, dC]
+  simp only [thead, tmaxp, tos2, thhea, thmtx, tname, tpost, tloca, tglyf, optDecode,
     dH, dM, dO, dD, dN, dP, dG, Option.map, Option.bind]
   simp only [hT]
   rfl
@@ -290,7 +354,8 @@ theorem codec_derive_metaOf (env : Env) (F : FileFont) :
         hmtx := some (deriveHmtx env (metaOf F)), maxp := some F.glyphs.length,
         os2 := some (codecOs2 (deriveOs2 (metaOf F))), name := some (deriveName env (metaOf F)),
         post := some (codecPost (derivePost (metaOf F))), cff := none,
-        outline := outlineOf F.glyphs none, gdef := none, gsub := none, gpos := none, kern := none } := rfl
+        outline := outlineOf F.glyphs none F.cmap F.glyphNames,
+        gdef := none, gsub := none, gpos := none, kern := none } := rfl
 
 theorem deriveHmtx_widths (env : Env) (F : FileFont) (hr : ∀ w ∈ F.widths, isInt16 w) :
     (deriveHmtx env (metaOf F)).widths = F.widths := by
@@ -310,17 +375,39 @@ theorem writeTables_eq (ef : EnvF) (F : FileFont) (enc : Glyf.Encoded) (hhea hmt
         (deriveHmtx ef.env (metaOf F)).lineGap, 0⟩
         (ef.riseRun (metaOf F).italicAngle).1 (ef.riseRun (metaOf F).italicAngle).2 = .ok (hhea, some hmtx))
     (hmaxp : Metrics.encodeMaxp ⟨F.glyphs.length, some F.maxpTtf⟩ = .ok maxp) :
-    writeTables ef F = .ok (tableEntries F.sideTables hhea hmtx
+    writeTables ef F = .ok (tableEntries F.sideTables hhea hmtx (F.cmap.map CmapTable.encode)
       (Metrics.encodeOs2 (os2Of (deriveOs2 (metaOf F))
-        ⟨0, 0, (Metrics.winMetricsModel (Metrics.fontBBoxModel (F.glyphs.map rectOf))).1,
+        ⟨(charIndices F.cmap).1, (charIndices F.cmap).2,
+          (Metrics.winMetricsModel (Metrics.fontBBoxModel (F.glyphs.map rectOf))).1,
           (Metrics.winMetricsModel (Metrics.fontBBoxModel (F.glyphs.map rectOf))).2⟩))
       (natsToBytes (Names.nameEncode (nameEntries (deriveName ef.env (metaOf F))) 1))
-      (Metrics.encodePost 0x00030000 (postHdrOf (derivePost (metaOf F))))
+      (natsToBytes (Names.postEncode (postHdrN (derivePost (metaOf F))) F.glyphNames))
       enc.glyf enc.loca maxp
       (Metrics.encodeHead (headOf (deriveHead (metaOf F)) (Metrics.fontBBoxModel (F.glyphs.map rectOf)) enc.fmt))) := by
   unfold writeTables
   simp only [henc, hws, hm, hmaxp]
   rfl
+
+/-- the cmap table read back is the cmap table of the font -/
+theorem cmap_read (F : FileFont)
+    (hc : ∀ t, F.cmap = some t → (∀ kd ∈ t, CmapTable.ValidSub kd.1 kd.2) ∧ t.length < 65536 ∧
+      (CmapTable.encode t).length < 4294967296) :
+    optDecode (F.cmap.map CmapTable.encode) CmapTable.decode = .ok F.cmap := by
+  cases hcm : F.cmap with
+  | none => rfl
+  | some t =>
+    obtain ⟨hv, hn, hsz⟩ := hc t hcm
+    simp only [Option.map, optDecode, cmap_table t hv hn hsz]
+
+/-- one name per glyph: `Read` keeps all of them -/
+theorem namesFor_self (n : Nat) (names : Option (List Names.GName))
+    (h : ∀ ns, names = some ns → ns.length = n) : namesFor n names = names := by
+  cases names with
+  | none => rfl
+  | some ns =>
+    have := h ns rfl
+    subst this
+    simp [namesFor]
 
 /-! ### `Subfamily()` is never empty -/
 
@@ -431,8 +518,9 @@ theorem inDomain_metaOf (F : FileFont) (hl : F.widths.length = F.glyphs.length)
 read back by `Read` as the explicit normal form: scalar fields `nf`, glyphs, maxp maxima, side
 tables, cmap subtables and glyph names unchanged.  `caretOf` (float trigonometry of `hmtx.toAngle`) is arbitrary: it cannot
 influence the result because the post table is present. -/
-theorem file_roundtrip (ef : EnvF) (caretOf : Int → Int → Int) (F : FileFont) (h : InDomainFile ef F) :
-    ∃ b, writeFile ef F = .ok b ∧ readFile caretOf b = .ok (nfFile F) := by
+theorem file_roundtrip (ld : LayoutDec) (ef : EnvF) (caretOf : Int → Int → Int) (F : FileFont)
+    (h : InDomainFile ld ef F) :
+    ∃ b, writeFile ef F = .ok b ∧ readFile ld caretOf b = .ok (nfFile F) := by
   sorry
 
 end SfntV.FontFile
